@@ -268,7 +268,7 @@ impl Property for C13 {
         let elems = vec![Identity, Torsion(Box::new(Identity)), Generator, MinusOneTimes(g()), Torsion(g()), Sub(g(), g())];
         let mut v = Vec::new();
         for e in &elems {
-            for (mode, via) in [(Mode::Witness, Via::Element), (Mode::Input, Via::Element), (Mode::Constant, Via::Element), (Mode::Witness, Via::Affine), (Mode::Input, Via::Affine), (Mode::Witness, Via::Encoding), (Mode::Input, Via::Encoding)] {
+            for (mode, via) in [(Mode::Witness, Via::Element), (Mode::Input, Via::Element), (Mode::Constant, Via::Element), (Mode::Witness, Via::Affine), (Mode::Input, Via::Affine), (Mode::Constant, Via::Affine), (Mode::Witness, Via::Encoding), (Mode::Input, Via::Encoding)] {
                 let mut prog = vec![GOp::AllocElem { dst: 0, src: e.clone(), mode, via }, GOp::AllocElem { dst: 1, src: MulGen(7u64.into()), mode: Mode::Witness, via: Via::Element }];
                 prog.extend(vec![
                     GOp::Compress { dst: 0, e: 0 },
